@@ -16,16 +16,16 @@ add('C03', PBT + 'round-trip and metamorphic relations (render -> parse, simplif
     'For generated reachable values: AnsiString(str(v)) keeps text and per-character effective style; simplify keeps both, leaves only valid parsable settings, is idempotent on the rendering and yields a parse/render fixed point.',
     NOTE, 'DESIGN.md section 3 C03')
 add('C04', PBT + 'generated values x generated and exhaustively enumerated slice bounds against Python slice semantics on the base text and the per-character settings table',
-    'Slices, integer indices, clip, iteration and step handling of generated values are compared character by character with the source (settings multiset and per-effect-group precedence) and each result is checked to be closed at its end; one sub-check enumerates all (start, stop) pairs per value.',
+    'Slices, integer indices, clip, iteration and step handling of generated values are compared character by character with the source (settings multiset and per-effect-group precedence) and each result is checked to be closed at its end; one sub-check enumerates all (start, stop) pairs per value, another every value of a small scope (<=2/<=3 apply-remove steps on 2-3 characters) x all bounds; base texts may contain escape sequences.',
     NOTE, 'DESIGN.md section 3 C04')
 add('C05', PBT + 'generated operand pairs incl. a seam-forcing generator; +, +=, join and split-and-rejoin at every k compared with the operands\' own per-character settings and, for rejoin, display identity on the reference terminal',
-    'Concatenation results are compared per character with snapshots of the operands taken before the call, for all seam configurations the implementation merges (equal, prefix, permuted, extended, staggered stops); join is compared with the left fold of +; s[:k]+s[k:] for every k is compared with s.',
+    'Concatenation results are compared per character with snapshots of the operands taken before the call, for all seam configurations the implementation merges (equal, prefix, permuted, extended, staggered stops); join is compared with the left fold of +; s[:k]+s[k:] for every k is compared with s; exhaustive sub-checks enumerate small seam configurations (every stop vector) and every split point of every small-scope value; a sequence split across the seam stays text.',
     NOTE, 'DESIGN.md section 3 C05')
 add('C06', PBT + 'before/after snapshots with setting identities around apply_formatting over generated values, ranges, settings and both topmost modes',
-    'Text, outside-range settings, inside-range multiset (old + given), precedence of old settings, and the displayed value of the effects involved (topmost=False: existing effects unchanged; topmost=True: new settings on top until another setting begins) are checked on the reference terminal.',
+    'Text, outside-range settings, inside-range multiset (old + given), precedence of old settings, and the displayed value of the effects involved (topmost=False: existing effects unchanged; topmost=True: new settings on top until another setting begins) are checked on the reference terminal; one sub-check enumerates every value of a small scope (<=2/<=3 apply-remove steps on 2-3 characters) x every call of that scope.',
     NOTE, 'DESIGN.md section 3 C06')
 add('C07', PBT + 'before/after comparison around remove_formatting / clear_formatting over generated values, selections picked from the value, and ranges',
-    'Inside the range the reported list must equal the previous list minus the selected texts in the same order; outside it settings and precedence must be unchanged; empty ranges are no-ops; clear_formatting leaves no settings.',
+    'Inside the range the reported list must equal the previous list minus the selected texts in the same order; outside it settings and precedence must be unchanged; empty ranges are no-ops; clear_formatting leaves no settings and the text as it is; one sub-check enumerates every value of a small scope x every removal of that scope.',
     NOTE, 'DESIGN.md section 3 C07')
 add('C08', PBT + 'stateful / model-based: generated operation histories over a register file of live values with a snapshot invariant after every step',
     'Histories of 3-30 public operations (in-place and non-in-place forms, binary operations between any live values incl. a value with itself) are executed; after each step every live value other than an in-place receiver must have an identical snapshot, settings lists must be unchanged, in-place calls must return the receiver and equal the non-in-place twin, results must not alias live values.',
@@ -34,7 +34,7 @@ add('C09', PBT + 'stateful generation with a wide (hostile) argument domain; ter
     'Histories mixing ordinary operations with empty / zero / negative / huge / invalid / wrongly typed arguments; each call must finish within a line-event bound, succeed or raise a documented error type, leave all live values unchanged on error, and leave every live value answering all queries, renderings, slices, concatenations and copies with the library self-check enabled.',
     NOTE, 'DESIGN.md section 3 C09')
 add('C10', PBT + 'differential testing against str on the base text for every str-like method with generated arguments',
-    'Every listed query and transforming method of both classes is called with generated texts and arguments and compared (value or exception type) with str, the documented deviations being applied to the expected side.',
+    'Every listed query and transforming method of both classes is called with generated texts and arguments and compared (value or exception type) with str, the documented deviations being applied to the expected side; base texts include ones with escape sequences stored unparsed, replacements may carry SGR sequences (parsed, as documented).',
     NOTE, 'DESIGN.md section 3 C10')
 add('C11', PBT + 'pieces / edited results compared with the original at true offsets computed independently from the str result',
     'For values with position-dependent formatting over a small alphabet, every piece of split/rsplit/splitlines/partition/strip/removeprefix/suffix, case conversions, assign_str, replace (plain and formatted replacements, reused over matches) and expandtabs is compared character by character with the original at its true offset.',
